@@ -42,7 +42,7 @@ var Templates = []string{
 	// consensus duties of the pigeons
 	"estimate", "sign", "relayerr", "relayok", "attesterr", "attestsplit", "balances", "refblock",
 	// skyway
-	"send", "cancel", "batchest", "confirm", "batchclaim", "deposit", "lightsale",
+	"send", "cancel", "batchest", "confirm", "batchclaim", "deposit", "lightsale", "claims2",
 	// tokenfactory
 	"tfcreate", "tfmint",
 	// paloma
@@ -385,6 +385,19 @@ func (c *chain) tpl(name string) [][]byte {
 				return []sdk.Msg{&skywaytypes.MsgLightNodeSaleClaim{Metadata: metaOf(a), EventNonce: n, EthBlockHeight: eh, Orchestrator: a.Bech32(), ChainReferenceId: chainA, SkywayNonce: n,
 					ClientAddress: c.user(3).Bech32(), Amount: math.NewInt(700), SmartContractAddress: saleAddr, CompassId: compassID(chainA)}}
 			}
+		})
+	case "claims2":
+		// two events of the remote chain reported in one transaction per validator: a deposit (nonce n) and a light node
+		// sale (nonce n+1) - two attestations complete in the same block
+		perVal(func(v int, a *env.Account) []sdk.Msg {
+			n, _ := e.App.SkywayKeeper.GetLastSkywayNonceByValidator(ctx, c.val(v).ValAddr, chainA)
+			n++
+			eh := uint64(1000 + e.Height)
+			return []sdk.Msg{
+				&skywaytypes.MsgSendToPalomaClaim{Metadata: metaOf(a), EventNonce: n, EthBlockHeight: eh, TokenContract: erc20A, Amount: math.NewInt(300), EthereumSender: ethSrc,
+					PalomaReceiver: c.user(2).Bech32(), Orchestrator: a.Bech32(), ChainReferenceId: chainA, SkywayNonce: n, CompassId: compassID(chainA)},
+				&skywaytypes.MsgLightNodeSaleClaim{Metadata: metaOf(a), EventNonce: n + 1, EthBlockHeight: eh + 1, Orchestrator: a.Bech32(), ChainReferenceId: chainA, SkywayNonce: n + 1,
+					ClientAddress: c.user(3).Bech32(), Amount: math.NewInt(400), SmartContractAddress: saleAddr, CompassId: compassID(chainA)}}
 		})
 	case "tfcreate":
 		u := c.user(0)
